@@ -86,16 +86,16 @@ func vpC17Check(t *rapid.T, l *vpLedger, where string) {
 }
 
 func TestVP_C17_supply(t *testing.T) {
-	c := kit.New(t, "C17", "rapid: finalized histories (10..60 actions: deposits, transfers with fan-in/out, withdrawal submits/claims, mints, node removals, batched snapshots, already-final transactions finalized again on other chains) over 3 assets on a real store; after every finalization the recorded total must equal the model (genesis+deposits+mints-submits) and the UTXO-prefix scan of outputs not consumed by a finalized tx, within [0,capacity]; non-trivial = history with a spend of a deposit-derived output and a submit; distinct by last tx hash")
-	c.Require("has-submit", "has-spend", "has-mint", "has-claim", "has-remove", "has-batch", "has-refinalize")
+	c := kit.New(t, "C17", "rapid: finalized histories (10..60 actions: deposits, transfers with fan-in/out, withdrawal submits/claims, mints, node removals, pledges and accepts, batched snapshots, already-final transactions finalized again on other chains) over 3 assets on a real store; after every finalization the recorded total must equal the model (genesis+deposits+mints-submits) and the UTXO-prefix scan of outputs not consumed by a finalized tx, within [0,capacity]; non-trivial = history with a spend of a deposit-derived output and a submit; distinct by last tx hash")
+	c.Require("has-submit", "has-spend", "has-mint", "has-claim", "has-remove", "has-batch", "has-refinalize", "has-pledge", "has-accept")
 	kit.SetChecks(kit.N(100, 4000))
 	rapid.Check(t, func(t *rapid.T) {
 		l := vpLNewLedger(7, "c17", 6)
 		defer l.Close()
 		steps := rapid.IntRange(10, 60).Draw(t, "steps")
-		var nsub, nspend, nmint, nclaim, nremove, nbatch, nrefin int
+		var nsub, nspend, nmint, nclaim, nremove, nbatch, nrefin, npledge, naccept int
 		for i := 0; i < steps; i++ {
-			k := rapid.IntRange(0, 12).Draw(t, "kind")
+			k := rapid.IntRange(0, 14).Draw(t, "kind")
 			fin := rapid.IntRange(0, 2).Draw(t, "fin") != 0
 			switch {
 			case i < 2 || k <= 2:
@@ -119,6 +119,14 @@ func TestVP_C17_supply(t *testing.T) {
 			case k == 9:
 				if l.StepNodeRemove(t, rapid.IntRange(0, 6).Draw(t, "node")) != nil {
 					nremove++
+				}
+			case k == 13:
+				if l.StepPledge(t, true) != nil {
+					npledge++
+				}
+			case k == 14:
+				if l.StepAccept(t, true) != nil {
+					naccept++
 				}
 			case k == 12:
 				if l.StepRefinalize(t) != nil {
@@ -157,7 +165,7 @@ func TestVP_C17_supply(t *testing.T) {
 		}
 		vpC17Check(t, l, "at end")
 		var cl []string
-		for name, n := range map[string]int{"has-submit": nsub, "has-spend": nspend, "has-mint": nmint, "has-claim": nclaim, "has-remove": nremove, "has-batch": nbatch, "has-refinalize": nrefin} {
+		for name, n := range map[string]int{"has-submit": nsub, "has-spend": nspend, "has-mint": nmint, "has-claim": nclaim, "has-remove": nremove, "has-batch": nbatch, "has-refinalize": nrefin, "has-pledge": npledge, "has-accept": naccept} {
 			if n > 0 {
 				cl = append(cl, name)
 			}
